@@ -171,7 +171,8 @@ def _primed_map(cfg, prime):
     if prime == "none":
         return None
     env = ENVS[cfg["env"]]
-    small = dict(cfg, n_iter=1, n_seeds=min(cfg["n_seeds"], 3), max_steps=min(cfg["max_steps"], 600))
+    # never the run's own request (that would turn the judged computation into a memo hit: nothing would run under the simulated pool)
+    small = dict(cfg, n_iter=1, n_seeds=min(cfg["n_seeds"], 3), max_steps=min(cfg["max_steps"], 600) - 1)
     if prime == "section":
         pm = _make_map(cfg)
         other = {"q3": "q2", "q2": "q3", "p3": "p2", "p2": "p3"}[cfg["section"]]
@@ -527,6 +528,11 @@ def execute(ctx: RunCtx) -> None:
         raise Violation("C14/O4-partition-dependence", f"{what}: {cfg['n_workers']} workers under the simulated schedule returned {len(sim_rows)} rows, "
                                                        f"1 worker returned {len(ref_rows)}; {len(a - b)} rows only in the former, {len(b - a)} only in the latter"
                                                        + (f"; prange-simulated kernel nT={nT} {ppart}/{ppol}" if use_psim else ""))
+    if calls["n"] == 0 and prime != "none" and len(sim_rows):
+        # the judged request was answered from the map's memo (it equals an earlier request of the map's history): the result was
+        # compared with the reference above; the record-based oracles have nothing to look at
+        ctx.probe("served_from_memo")
+        return
     # union of what the backend produced (after the engine's section enforcement) == output
     prod = []
     col = _sec_col(cfg["section"])
